@@ -126,7 +126,8 @@ class TryOk(Cut):
 
 class PredTrue(Cut):
     """Remove the edge on which a predicate holds.  `test(pname, pargs)` decides whether the
-    occurrence is the guard looked for."""
+    occurrence is the guard looked for: truthy = the occurrence asserts the guard, -1 = it asserts
+    the guard's negation (e.g. `a >= b` written as `!(a < b)` / `if a < b { return Err }`)."""
 
     def __init__(self, name, test):
         self.name = name
@@ -136,7 +137,7 @@ class PredTrue(Cut):
         r = self.test(pname, pargs)
         if not r:
             return None
-        truth = positive if r is True else (positive if r == "true" else not positive)
+        truth = (not positive) if r == -1 else positive
         return _bool_targets(labels3, truth)
 
 
@@ -151,7 +152,61 @@ class PredFalse(Cut):
         r = self.test(pname, pargs)
         if not r:
             return None
-        return _bool_targets(labels3, not positive)
+        truth = (not positive) if r == -1 else positive
+        return _bool_targets(labels3, not truth)
+
+
+_FLIP = {"<": ">", ">": "<", "<=": ">=", ">=": "<="}
+_NEG = {"<": ">=", ">=": "<", ">": "<=", "<=": ">"}
+_NAME2OP = {"lt": "<", "le": "<=", "gt": ">", "ge": ">="}
+
+
+def rel_sign(pname, pargs, a_test, op, b_test):
+    """+1 if the comparison occurrence asserts `a op b`, -1 if it asserts the negation, 0 otherwise.
+    All spellings are recognised: a<b, b>a, !(a>=b), !(b<=a)."""
+    if pname not in _NAME2OP or len(pargs) < 2:
+        return 0
+    r = _NAME2OP[pname]
+    x, y = pargs[0], pargs[1]
+    if a_test(x) and b_test(y):
+        rr = r
+    elif a_test(y) and b_test(x):
+        rr = _FLIP[r]
+    else:
+        return 0
+    if rr == op:
+        return 1
+    if rr == _NEG[op]:
+        return -1
+    return 0
+
+
+def om(pat, require_all=True):
+    return lambda v: origin_match(v, pat, require_all)
+
+
+def rel(pat_a, op, pat_b, require_all=True):
+    """test for PredTrue/PredFalse: the relation `a op b` between values with origins matching the patterns"""
+    return lambda pn, pa: rel_sign(pn, pa, om(pat_a, require_all), op, om(pat_b, require_all))
+
+
+def rel_atoms(v):
+    """comparison predicates found in a switch operand, with polarity: (name, args, positive)"""
+    return [(n, a, p) for (n, a, p) in preds_of(v) if n in _NAME2OP]
+
+
+def find_rel(events, a_test, op, b_test, fn_suffix=None):
+    """[(event, args, sign)] over switch events asserting `a op b` in any spelling"""
+    out = []
+    for e in events:
+        if fn_suffix and not e.fn.endswith(fn_suffix):
+            continue
+        for (n, a, p) in rel_atoms(e.vals[0]):
+            s = rel_sign(n, a, a_test, op, b_test)
+            if s:
+                x, y = (a[0], a[1])
+                out.append((e, a, s if p else -s))
+    return out
 
 
 def origin_match(v, pat, require_all=True, exact_only=False):
